@@ -425,6 +425,18 @@ def budget_measures_the_complete_message(ctx):
         raise AnchorMissing('length budget not found', violation=f'{init.qualname}:budget measures the complete message')
     params = {a.arg for a in init.node.args.args}
     disable_only = _disable_measurements(init)
+    # the bound of the slice that truncates the description derives from a measurement of the builder's output
+    for sl in [x for x in body_walk(init.node) if isinstance(x, ast.Subscript) and isinstance(x.slice, ast.Slice) and 'encode' in src(x.value)]:
+        bounds = [b for b in (sl.slice.lower, sl.slice.upper) if b is not None]
+        feeding = []
+        for bnd in bounds:
+            feeding += [c for c in ast.walk(bnd) if _is_measure(c)]
+            for nm in [x for x in ast.walk(bnd) if isinstance(x, ast.Name)]:
+                for o in origins(nm, init.node):
+                    feeding += [c for c in ast.walk(o) if _is_measure(c)]
+        ctx.check(bool(feeding), f'{init.qualname}:truncation bound comes from the measured message', sl, f'`{src(sl.slice)}` derives from len(self.<builder>(...))',
+                  f'the description is cut at `{src(sl.slice)}`, which is not derived from the length of the message the builder produces: the datagram can exceed 508 bytes '
+                  '(JSON escaping, multi-byte characters, the fixed part of the message)', init)
     for b in budget:
         if any(b is x for x in disable_only):
             continue     # the measurement that only decides whether the identity alone fits (C19.R2c)
